@@ -17,8 +17,8 @@ class C06(Prop):
     id = "C06"
     title = "Uplink NAS protection is correct over any message history"
     lean_module = "Stgutg.Props.C06"
-    extra_modules = ["Stgutg.Proofs.GenTieCount"]
-    gen = ["tables", "pure-count"]
+    extra_modules = ["Stgutg.Proofs.GenTieCount", "Stgutg.Gen.PureSelftest"]
+    gen = ["tables", "pure-count", "pure-selftest"]
     theorems = [
         # tie by translation: the eight methods of security.Count regenerated from counter.go ARE the hand model
         "Stgutg.Proofs.GenTie.Count.Count_methods_eq",
@@ -53,7 +53,7 @@ class C06(Prop):
             "operation on boundary windows, random windows and a strided pass over all 32 bits (thorough: every one of the 2^24 "
             "values) compared as a digest against the model and against the arithmetic meaning. non-trivial = accepted history "
             "with at least one protected message, or a sweep; distinct by op line")
-    trusted_base = ["TIE BY TRANSLATION (gen pure-count, harness/cmd/gen/pure*.go -> lean/Stgutg/Gen/PureCount.lean, regenerated from the source text on every run): security.Count: maskTo24Bits, Get, AddOne, SQN, SetSQN, Overflow, SetOverflow, Set (pointer receiver threaded as a value). The theorems GenTie.Count.Count_methods_eq prove generated definition = hand model for ALL inputs, so a change of the Go text changes the generated definition and the theorem stops checking, whatever input would show it. Trusted here instead of sampling: the translator's grammar and its runtime Gen/PureRt.lean (Go's fixed-width arithmetic, index / slice panics, value semantics of slices under the translator's no-alias check, go/types constant evaluation); a construct outside the grammar fails closed (TRANSLATOR-FAILED file:line)",
+    trusted_base = ["TIE BY TRANSLATION (gen pure-count, harness/cmd/gen/pure*.go -> lean/Stgutg/Gen/PureCount.lean, regenerated from the source text on every run): security.Count: maskTo24Bits, Get, AddOne, SQN, SetSQN, Overflow, SetOverflow, Set (pointer receiver threaded as a value). The theorems GenTie.Count.Count_methods_eq prove generated definition = hand model for ALL inputs, so a change of the Go text changes the generated definition and the theorem stops checking, whatever input would show it. Trusted here instead of sampling: the translator's grammar and its runtime Gen/PureRt.lean (Go's fixed-width arithmetic, index / slice panics, value semantics of slices under the translator's no-alias check, go/types constant evaluation); a construct outside the grammar fails closed (TRANSLATOR-FAILED file:line); the translator and its runtime are themselves checked against the Go compiler on every run: gen pure-selftest translates harness/cmd/gen/pureselftest/fns.go and writes the results of EXECUTING the compiled functions beside the translation (Gen/PureSelftest.lean: 97 calls incl. wrap-around, MinInt / -1, division by zero, index / slice panics, shadowing, break / continue, receiver mutation, as kernel-checked equalities)",
                     "crypto/aes, cipher.NewCTR, github.com/aead/cmac are parameters of the theorems (Prims); the receiver theorem "
                     "assumes the CTR primitive is a keystream cipher (ctr k iv m = m xor stream k iv |m|), shown satisfiable; "
                     "Crypto/Aes.lean instantiates the primitives for the comparator only",
